@@ -629,20 +629,27 @@ def spawn_layer_in_subprocess(result, script_parts, options, features,
                                      for line in errlines[-10:]))
             output.error_with_banner(errmsg)
 
-        while nfail > 0:
-            nfail -= 1
-            # Doing erriter.next().strip() confuses the 2to3 fixer, so
-            # we need to do it on a separate line. Also, in python 3 this
-            # returns bytes, so we decode it.
-            next_fail = next(erriter)
-            failures.append((next_fail.strip().decode(), None))
-        while nerr > 0:
-            nerr -= 1
-            # Doing erriter.next().strip() confuses the 2to3 fixer, so
-            # we need to do it on a separate line. Also, in python 3 this
-            # returns bytes, so we decode it.
-            next_err = next(erriter)
-            errors.append((next_err.strip().decode(), None))
+        # Only use the names of the failed and errored tests if the report
+        # is complete: the subprocess may have died while writing it.
+        names = []
+        try:
+            for _ in range(nfail + nerr):
+                names.append(next(erriter).strip())
+        except StopIteration:
+            names = None
+        else:
+            if (names and next(erriter, None) is None and
+                    not stderr_buf[0].endswith((b'\n', b'\r'))):
+                # The last name has no line end: it was cut short.
+                names = None
+        if names is None:
+            errors.append(("subprocess for %s" % layer_name, None))
+            output.error_with_banner(
+                "Truncated report from subprocess for %s!" % layer_name)
+        else:
+            names = [name.decode('utf-8', 'replace') for name in names]
+            failures.extend((name, None) for name in names[:nfail])
+            errors.extend((name, None) for name in names[nfail:])
 
     finally:
         result.done = True
